@@ -124,3 +124,53 @@ func vC03MPD(a *asset, videoID, audioID string, maxTsbd int) {
 	}
 	vReach("C03.mpd.end")
 }
+
+// ---- $Time$ addressing of audio: the advertised audio time of reference segment n resolves to segment n ----
+
+func init() {
+	vHarnesses["vH_C03_time_testpic2s"] = vH_C03_time_testpic2s
+	vHarnesses["vH_C03_time_bbb_ac3"] = vH_C03_time_bbb_ac3
+	vHarnesses["vH_C03_time_wave2997"] = vH_C03_time_wave2997
+	vHarnesses["vH_C03_time_testpic6s"] = vH_C03_time_testpic6s
+	vHarnesses["vH_C03_time_syn_irregular3"] = vH_C03_time_syn_irregular3
+}
+
+func vH_C03_time_testpic2s() { vC03Time(vAsset_testpic_2s(), "A48") }
+func vH_C03_time_bbb_ac3()   { vC03Time(vAsset_bbb_hevc_ac3_8s(), "2") }
+func vH_C03_time_wave2997() {
+	vC03Time(vAsset_WAVE_vectors_cfhd_sets_14_985_29_97_59_94_t1_2022_10_17(), "A48")
+}
+func vH_C03_time_testpic6s()      { vC03Time(vAsset_testpic_6s(), "A48") }
+func vH_C03_time_syn_irregular3() { vC03Time(vAsset_syn_irregular3(), "A1") }
+
+// vC03Time: a request for the audio $Time$ that the MPD advertises for reference segment n (the first
+// frame boundary at or after the video start) is mapped back to exactly that reference segment, so
+// Number and Time addressing serve the same audio segment; a time that is not a frame boundary is rejected.
+func vC03Time(a *asset, repID string) {
+	rep := a.Reps[repID]
+	ref := a.refRep
+	refTs, aTs := ref.MediaTimescale, rep.MediaTimescale
+	frame := int(*rep.ConstantSampleDuration)
+	startNr := vInt("startNr", 0, 1<<20)
+	n := vInt("n", 0, 1<<24)
+	cfg := vCfg(0, startNr, 60)
+	cfg.SegTimelineFlag = true
+	cfg.AvailabilityTimeOffsetS = vInf()
+	refStart := vSegStartTicks(a, ref, n)
+	t := vAudioTimeOracle(refStart, refTs, frame, aTs)
+	refMeta, err := findRefSegMetaFromTime(a, rep, uint64(t), cfg, 0)
+	vAssert("C03.time.ok", err == nil)
+	if err == nil {
+		vAssert("C03.time.resolves-to-segment-n", int(refMeta.newNr) == startNr+n)
+		vAssert("C03.time.ref-start", int(refMeta.newTime) == refStart)
+		vAssert("C03.time.ref-dur", int(refMeta.newDur) == vSegEndTicks(a, ref, n)-refStart)
+		rec := calcAudioSegRecipe(refMeta.newNr, refMeta.newTime, refMeta.newTime+uint64(refMeta.newDur),
+			uint64(ref.duration()), uint64(refTs), rep)
+		vAssert("C03.time.served-start-is-requested-time", int(rec.startTime) == t)
+	}
+	off := vInt("off", 1, 1535)
+	vAssume(off < frame)
+	_, errOff := findRefSegMetaFromTime(a, rep, uint64(t+off), cfg, 0)
+	vAssert("C03.time.non-frame-boundary-rejected", errOff != nil)
+	vReach("C03.time.end")
+}
